@@ -148,6 +148,7 @@ func checkC12(c *Ctx) {
 		if err != nil {
 			continue
 		}
+		c.convJudgeAll(pj, doc, 6)
 		// FindElement from the root iterator
 		for t := 0; t < 2; t++ {
 			path := []string{keyPool[r.Intn(len(keyPool))]}
